@@ -92,7 +92,7 @@ def more_generated(rng) -> list[tuple[Any, str]]:
         for _ in range(40):
             v = struct.unpack(">d", rng.getrandbits(64).to_bytes(8, "big"))[0]
             add(f"FloatAttr({v!r}, {t})", lambda v=v, t=t: b.FloatAttr(v, t))
-    strs = ["", "a", "\x00", "\x01\x02", "\t", "\n", "\r", "\x0b\x0c", "\x7f", "\"", "\\", "\\n", "é", "中文", "\U0001F600", "a b", "퟿", "�", "%0", "//", "{-#", "\xa0", "a" * 300]
+    strs = ["", "a", "\x00", "\x01\x02", "\t", "\n", "\r", "\x0b\x0c", "\x7f", "\"", "\\", "\\n", "é", "中文", "\U0001F600", "a b", "퟿", "�", "%0", "//", "{-#", "\xa0", "a" * 300, "café", "naïve_name", "x²", "v٣", "变量", "a.b$c", "_", "a b", "9lives", "a-b", "é9", "A"]
     for s in strs:
         add(f"StringAttr({s!r})", lambda s=s: b.StringAttr(s))
         add(f"BytesAttr({s!r})", lambda s=s: b.BytesAttr(s.encode("utf-8", "surrogatepass")))
@@ -146,6 +146,9 @@ def more_generated(rng) -> list[tuple[Any, str]]:
     dyn = getattr(b, "DYNAMIC_INDEX", -1)
     add("strided dynamic", lambda: b.MemRefType(b.f32, [dyn, 3], b.StridedLayoutAttr([dyn, 1], dyn)))
     add("strided no offset", lambda: b.MemRefType(b.i8, [2], b.StridedLayoutAttr([1])))
+    for strides, off in (([0], 0), ([4, 0, 1], 0), ([0, 0], 5), ([1], 0), ([2, 1], None), ([None, 0], 0), ([3], 7), ([], 0), ([-1], -2)):
+        add(f"strided {strides} {off}", lambda strides=strides, off=off: b.StridedLayoutAttr(strides, off))
+        add(f"memref strided {strides} {off}", lambda strides=strides, off=off: b.MemRefType(b.f32, [2] * len(strides), b.StridedLayoutAttr(strides, off)))
     add("vector 0-d", lambda: b.VectorType(b.f32, []))
     add("unsigned index-like", lambda: b.IntegerAttr(2 ** 64 - 1, b.IntegerType(64, b.Signedness.UNSIGNED)))
     add("dense vector", lambda: b.DenseIntOrFPElementsAttr.from_list(b.VectorType(b.f32, [2]), [1.5, -2.5]))
@@ -161,7 +164,7 @@ def more_generated(rng) -> list[tuple[Any, str]]:
     for k in range(150):
         n = rng.choice([0, 1, 2, 3])
         add(f"ArrayAttr #{k}", lambda n=n: b.ArrayAttr([rng.choice(base) for _ in range(n)]))
-        add(f"DictionaryAttr #{k}", lambda n=n: b.DictionaryAttr({rng.choice(["a", "b.c", "with space", "é", "0", ""]) or "k": rng.choice(base) for _ in range(n)}))
+        add(f"DictionaryAttr #{k}", lambda n=n: b.DictionaryAttr({rng.choice(["a", "b.c", "with space", "é", "0", "", "café", "x²", "变量", "a$", "_x", "a-b", "q\"q"]) or "k": rng.choice(base) for _ in range(n)}))
     nested = [x for x, _ in out[-300:] if roundtrips(x)]
     for k in range(60):
         add(f"nested #{k}", lambda: b.ArrayAttr([rng.choice(nested), b.DictionaryAttr({"k": rng.choice(nested)})]))
